@@ -301,7 +301,8 @@ def style(rng):
     if rng.random() < 0.4:
         t = rng.choice(sorted(TRIGGER_PARAM))
         decls.append("%s:%s" % (t, KEYWORD_PROPS[t][0] if rng.random() < 0.7 else rng.choice(KEYWORD_PROPS[t])))
-        decls.append("%s:%s" % (TRIGGER_PARAM[t], length(rng)))
+        if rng.random() < 0.8:                                   # ... or the trigger without the parameter
+            decls.append("%s:%s" % (TRIGGER_PARAM[t], length(rng)))
     for _ in range(rng.randint(0 if decls else 1, 2)):
         if rng.random() < 0.5:
             decls.append("%s:%s" % (rng.choice(LENGTH_PROPS), length(rng)))
